@@ -123,10 +123,22 @@ SameFrames(ofs, xfs, vid) ==
   /\ Len(ofs) = Len(xfs)
   /\ \A k \in 1..Len(ofs) : (ofs[k].v = vid[xfs[k].i]) /\ (ofs[k].unk \/ (ofs[k].trap = xfs[k].trap))
 
+(* Repeated sentinel lines.  The parent writes its sentinel once, first; any  *)
+(* later line "sentinel ..." (a line of a multi-line panic message, text      *)
+(* between goroutines, inside or after the block) is ordinary text: the name  *)
+(* may depend on the first sentinel only.  AsText reads the report that way.  *)
+(* A report that is in the genuine format when read that way must give the    *)
+(* name of that reading -- or an error, since the property lets any other     *)
+(* text turn the result into an error -- and nothing else.                    *)
+AsText(h) == [i \in 1..Len(h) |-> IF i > 1 /\ h[i].s \in SentS THEN L("text", FALSE, FALSE, "none") ELSE h[i]]
+
 Allowed(h, vid, o) ==
   /\ ShapeOK(o)
   /\ IF WellFormed(h)
      THEN LET x == Expected(h) IN o.kind = x.kind /\ SameFrames(o.frames, x.frames, vid)
+     ELSE IF WellFormed(AsText(h))
+     THEN \/ o.kind = "err"
+          \/ LET x == Expected(AsText(h)) IN o.kind = x.kind /\ SameFrames(o.frames, x.frames, vid)
      ELSE o.kind = "name" => LET lib == {vid[i] : i \in Liberal(h)} IN
                              /\ Len(o.frames) <= Cap
                              /\ \A k \in 1..Len(o.frames) : o.frames[k].v \in lib
@@ -145,16 +157,17 @@ AsF17(h) == [i \in 1..Len(h) |-> IF h[i].pc = "okpath" THEN [h[i] EXCEPT !.pc = 
 (* ------------------------------------------------------------------------ *)
 (* Operational reading: one pass over the lines.                             *)
 (* ------------------------------------------------------------------------ *)
-P0 == [phase |-> "pre", wf |-> TRUE, sent |-> "none", sympos |-> TRUE,
+P0 == [phase |-> "pre", wf |-> TRUE, once |-> TRUE, sent |-> "none", sympos |-> TRUE,
        curSig |-> FALSE, lastSig |-> FALSE, pcs |-> <<>>]
 
-Step(p, l, i) ==
-  IF p.phase = "post" THEN p
-  ELSE IF p.phase = "pre" THEN
+\* wf: in the genuine format so far when later sentinel lines are read as text;
+\* once: no such later sentinel line so far (before the end of the block)
+StepT(p, l, i) ==
+  IF p.phase = "pre" THEN
      LET q == IF i = 1
               THEN IF l.s \in {"sent1", "sent2"} THEN [p EXCEPT !.sent = l.s]
                                                  ELSE [p EXCEPT !.wf = FALSE]
-              ELSE IF l.s \in SentS \cup {"amb"} THEN [p EXCEPT !.wf = FALSE] ELSE p
+              ELSE IF l.s = "amb" THEN [p EXCEPT !.wf = FALSE] ELSE p
      IN IF l.s = "run" THEN [q EXCEPT !.phase = "in", !.sympos = TRUE] ELSE q
   ELSE \* inside the block of the first running goroutine
      IF l.s \in {"blank", "created"}
@@ -170,9 +183,16 @@ Step(p, l, i) ==
                ELSE IF l.pc = "none" THEN [p EXCEPT !.sympos = TRUE]
                     ELSE [p EXCEPT !.sympos = TRUE, !.wf = FALSE]
 
+Step(p, l, i) ==
+  IF p.phase = "post" THEN p
+  ELSE IF i > 1 /\ l.s \in SentS
+       THEN StepT([p EXCEPT !.once = FALSE], L("text", FALSE, FALSE, "none"), i)
+       ELSE StepT(p, l, i)
+
 RECURSIVE Run(_, _, _)
 Run(p, h, i) == IF i > Len(h) THEN p ELSE Run(Step(p, h[i], i), h, i + 1)
 
-AWellFormed(p, n) == n >= 1 /\ p.wf /\ (p.phase = "in" => p.sympos)
+AWellFormedT(p, n) == n >= 1 /\ p.wf /\ (p.phase = "in" => p.sympos)   \* of AsText(report)
+AWellFormed(p, n) == AWellFormedT(p, n) /\ p.once                       \* of the report itself
 AOut(p) == IF p.pcs = <<>> THEN NoGo ELSE Name(Take(p.pcs, Cap))
 =============================================================================
